@@ -4,7 +4,7 @@ import subprocess, re, sys, tempfile, os
 TMP = tempfile.mkdtemp()
 HDR = '''From Coq Require Import String.
 From PS Require Import Base GFDefs PackDefs StoreDefs MiscDefs StrDefs LangDefs ApiDefs SpecDefs SpecApi.
-From PS Require Import GFProofs MiscProofs CoinProofs PackProofs PackTheorems StoreProofs SeedProofs ApiLemmas RefineProofs RoundTrip TraceProofs FrameProofs SafetyProofs.
+From PS Require Import GFProofs MiscProofs CoinProofs PackProofs PackTheorems StoreProofs SeedProofs ApiLemmas RefineProofs RoundTrip TraceProofs FrameProofs SafetyProofs HeldProofs.
 From PS Require Import StrProofs CTieBase CTieLang CTiePhrase CTiePhraseEv CTieSplit CTieApi CTieDecode CTieEncode CTieLocals CTieInject CTieCmp CTieSearch CTieClosed CodeTheorems CodeMachine.
 From PS.Gen Require Import Consts PrivConsts Langs.
 From PS.Gen Require CFuns CApi.
@@ -23,7 +23,7 @@ def typ(name):
 IMPORTS = '''
 (* ---- the tie to the code: src/polyseed.c as TRANSLATED on this run (Gen/CApi.v) ---- *)
 From Coq Require Import String.
-From PS Require Import Base GFDefs PackDefs StoreDefs MiscDefs StrDefs LangDefs ApiDefs SpecDefs SpecApi GFProofs PackProofs StoreProofs RefineProofs RoundTrip TraceProofs FrameProofs SafetyProofs CTieBase CTieLang CTiePhrase CTiePhraseEv CTieSplit CTieApi CTieDecode CTieEncode CTieLocals CTieInject CTieCmp CTieSearch CTieClosed CodeTheorems CodeMachine.
+From PS Require Import Base GFDefs PackDefs StoreDefs MiscDefs StrDefs LangDefs ApiDefs SpecDefs SpecApi GFProofs PackProofs StoreProofs RefineProofs RoundTrip TraceProofs FrameProofs SafetyProofs CTieBase CTieLang CTiePhrase CTiePhraseEv CTieSplit CTieApi CTieDecode CTieEncode CTieLocals CTieInject CTieCmp CTieSearch CTieClosed CodeTheorems HeldProofs CodeMachine.
 From PS.Gen Require Import Consts PrivConsts Langs.
 From PS.Gen Require CFuns.
 From PS.Gen Require CApi.
@@ -32,10 +32,10 @@ PLAN = {
  'C01': [('roundtrip','code_roundtrip_explicit','ON THE CODE: the phrase the translated polyseed_encode writes for a live seed of any reachable state, handed as a C string to the translated polyseed_decode_explicit (whose word search is the translated polyseed_lang_find_word), gives a new block holding the same struct - ties composed with C01_roundtrip_explicit; hypotheses: libc bsearch by contract, the injected normalisers (NormOK), fuel'),
          ('api_encode','tie_encode','polyseed_encode as translated against the mirror step: the phrase written is the words of the 16 coefficients joined by the separator, composed when the language asks for it'),
          ('api_decode_explicit','tie_decode_explicit','polyseed_decode_explicit as translated against the mirror step')],
- 'C03': [('api_encode','tie_encode','polyseed_encode as translated: coefficient 0 is the stored check value, coefficient 1 carries the coin, word i of the output is word number coefficient i of the list')],
+ 'C03': [('held_independent','code_held_independent','ON THE CODE: what the TRANSLATED polyseed_encode / store / crypt / keygen / queries / free do on a held seed does not depend on the feature set enabled at the time of the call - cstep_ok composed with HeldProofs.held_independent'), ('api_encode','tie_encode','polyseed_encode as translated: coefficient 0 is the stored check value, coefficient 1 carries the coin, word i of the output is word number coefficient i of the list')],
  'C17': [('write_str','tie_write_str','write_str as translated: the bytes of the word at the offset, the offset advanced by its length - while it fits the buffer'),
          ('api_encode','tie_encode','polyseed_encode as translated: every write stays inside str_tmp exactly when the joined phrase is shorter than POLYSEED_STR_SIZE (the case C17_bounds shows is the only one), and the length returned is the length written')],
- 'C04': [('keygen','tie_keygen','polyseed_keygen as translated: exactly one call of the injected KDF, with the 32-byte secret buffer, the salt "POLYSEED key" 00 FF FF FF | coin | birthday | features | 0000 (little-endian 32-bit fields), 10000 iterations and the caller\'s key size; the key is what that call wrote')],
+ 'C04': [('held_independent','code_held_independent','ON THE CODE: what the TRANSLATED polyseed_encode / store / crypt / keygen / queries / free do on a held seed does not depend on the feature set enabled at the time of the call - cstep_ok composed with HeldProofs.held_independent'), ('keygen','tie_keygen','polyseed_keygen as translated: exactly one call of the injected KDF, with the 32-byte secret buffer, the salt "POLYSEED key" 00 FF FF FF | coin | birthday | features | 0000 (little-endian 32-bit fields), 10000 iterations and the caller\'s key size; the key is what that call wrote')],
  'C06': [('api_load','tie_load','polyseed_load as translated against the mirror step: status, block, *seed_out, events - for every 32-byte buffer and either allocation outcome'),
          ('api_store','tie_store','polyseed_store as translated = the storage layout, for every canonical struct'),
          ('roundtrip','code_store_load','ON THE CODE: what the translated polyseed_store writes for a live seed of any reachable state, the translated polyseed_load turns back into the same struct (status OK, one allocation, one wipe of poly) - ties composed with C06_api_roundtrip')],
@@ -44,9 +44,9 @@ PLAN = {
          ('api_decode_explicit','tie_decode_explicit','polyseed_decode_explicit as translated against the mirror step'),
          ('decode_closed','tie_decode_closed','the chain closed: polyseed_decode as translated, the search of the language loop being the TRANSLATED polyseed_lang_find_word; left as hypotheses only libc bsearch (contract), the injected normaliser and the allocator'),
          ('decode_explicit_closed','tie_decode_explicit_closed','the same for polyseed_decode_explicit')],
- 'C10': [('api_get_feature','tie_get_feature','polyseed_get_feature as translated'), ('api_is_encrypted','tie_is_encrypted_api','polyseed_is_encrypted as translated')],
+ 'C10': [('held_independent','code_held_independent','ON THE CODE: what the TRANSLATED polyseed_encode / store / crypt / keygen / queries / free do on a held seed does not depend on the feature set enabled at the time of the call - cstep_ok composed with HeldProofs.held_independent'), ('api_get_feature','tie_get_feature','polyseed_get_feature as translated'), ('api_is_encrypted','tie_is_encrypted_api','polyseed_is_encrypted as translated')],
  'C11': [('api_get_birthday','tie_get_birthday','polyseed_get_birthday as translated'), ('api_create','tie_create','polyseed_create as translated against the mirror step (birthday = birthday_encode of the injected clock)')],
- 'C12': [('involution','code_crypt_twice','ON THE CODE: the translated polyseed_crypt applied twice with the same password returns the struct byte for byte - tie composed with C12_involution'),
+ 'C12': [('held_independent','code_held_independent','ON THE CODE: what the TRANSLATED polyseed_encode / store / crypt / keygen / queries / free do on a held seed does not depend on the feature set enabled at the time of the call - cstep_ok composed with HeldProofs.held_independent'), ('involution','code_crypt_twice','ON THE CODE: the translated polyseed_crypt applied twice with the same password returns the struct byte for byte - tie composed with C12_involution'),
          ('api_crypt','tie_crypt','polyseed_crypt as translated against the mirror step: one KDF call on the normalised password, the xor of 19 bytes, the cleared top bits, the toggled flag, the new check value, three wipes')],
  'C13': [('machine','cstep_ok','THE TRANSLATED CODE AS A MACHINE: one call of the Gallina generated from the current polyseed.c (every public function except polyseed_inject, which is tied separately) on a state - table, mask, heap of blocks, allocator counter - gives the same next state, output and events as the mirror step, for every well-formed call'),
          ('machine_run','crun_run','... and so does every history of calls'),
